@@ -108,6 +108,10 @@ def gen_case(rng, tier):
         single = single or sgl
         if rng.random() < 0.3:
             st['opd_dtype'] = 'float32'        # the same OPD map held in single precision (where every value is exactly representable)
+        if rng.random() < 0.3:
+            st['amp_dtype'] = rng.choice(('float32', 'float16'))      # small whole numbers: exactly representable
+        if rng.random() < 0.3:
+            st['mask_dtype'] = rng.choice(('float32', 'float16', 'bool', 'uint8'))
         steps.append(st)
         if px is not None and cur_px is None:
             cur_px = px
@@ -294,6 +298,21 @@ def run(ctx):
             ok, err = False, repr(ex)[:200]
         if not ok:
             ctx.violation({'kind': 'attributes-assigned-after-construction', 'which': which}, {'shape': [m_, n_], 'error': err}, case=None)
+    # a scalar amplitude is that number whatever type the (binary) mask is stored in
+    for _ in range(12):
+        m_, n_ = rng.randint(2, 5), rng.randint(2, 5)
+        sup_ = np.array([[rng.random() < 0.7 for _ in range(n_)] for _ in range(m_)])
+        sup_[0, 0] = sup_[-1, -1] = True
+        a0_ = rng.choice((0.3, 0.7, 1.1))
+        O_ = np.array([[rng.randrange(16) for _ in range(n_)] for _ in range(m_)]) * (1e-6 / 16)
+        opd_ = rng.choice((O_, 5.50532016e-08))
+        ref_ = (lentil.Wavefront(5e-7) * lentil.Plane(amplitude=a0_, opd=opd_, mask=sup_.astype(float))).field
+        for mdt in (np.float16, np.float32, bool, np.uint8):
+            ctx.case(('scalar-amplitude-mask-dtype', np.dtype(mdt).name, a0_, m_, n_, np.ndim(opd_)))
+            got_ = (lentil.Wavefront(5e-7) * lentil.Plane(amplitude=a0_, opd=opd_, mask=sup_.astype(mdt))).field
+            if not np.allclose(got_, ref_, rtol=1e-13, atol=1e-15):
+                ctx.violation({'kind': 'field-depends-on-the-storage-type-of-the-mask', 'mask_dtype': np.dtype(mdt).name, 'opd': 'scalar' if np.ndim(opd_) == 0 else 'array'},
+                              {'amplitude': a0_, 'max_abs_difference': float(np.abs(got_ - ref_).max())}, case=None)
     # a wavefront that has met no sampled plane yet is one constant c on an unbounded plane (Optics!ConstPhasorTerms): its intensity is
     # |c|^2 everywhere, so accumulating it into ANY array with a weight adds weight * |c|^2 to every sample
     for _ in range(30):
